@@ -1,10 +1,18 @@
 import Swat4.Lemmas.Filter
+import Swat4.Lemmas.FilterChecked
+import Swat4.Lemmas.FilterSound
+import Swat4.Lemmas.FilterComplete
+import Swat4.Lemmas.FilterLeniency
 /-!
 # C03 — A listing contains exactly the live servers that match status and filter
 
 Property theorems only.  `Swat4.Filter.*` is the model of `filter.go`, `query.go`, the browser's and the
 REST handler's query construction, `listservers.Execute` and `servers.Filter`; `Swat4.FilterSpec.*` is the
-specification written from the property text (`sat`, `render`, `WfClause`, `selected`, `flagClauses`).
+specification written from the property text (`sat`, `render`, `WfClause`, `selected`, `flagClauses`,
+and the lenient grammar `QueryText`).
+
+`Lemmas/FilterLeniency.lean` (imported, so checked with this file) pins, one `example` per string, what
+the parser makes of ~120 edge-case strings; its right-hand sides are the REAL Go parser's answers.
 -/
 namespace Swat4.C03
 open Swat4 Swat4.Filter Swat4.FilterSpec
@@ -40,8 +48,10 @@ theorem required_in_scope (required : Nat) (h : required < 512) :
   exact this i hi9
 
 /-- **Totality.**  `NewFromString` returns a non-empty list of filters or one of five errors — on every
-byte string.  The model has no `panic` outcome, so this is true by construction; what makes the
-construction faithful is the inventory of the Go code's partial operations, none of which can fail:
+byte string.  The total form of the model has no `panic` outcome, so this is true by construction; that
+the construction is faithful is `filter_parse_never_panics` below (the checked form, with every index /
+slice expression of the Go code explicit, equals this one).  The inventory of the Go code's partial
+operations:
 
 * `filter.Parse`: `filterBytes[i:j]` (twice) and `filterBytes[i:]` — `i` is only ever assigned from `j`,
   `j` counts the bytes consumed so far, so `0 ≤ i ≤ j ≤ len`;
@@ -63,6 +73,32 @@ theorem parse_total (s : Bytes) :
     cases fs with
     | nil => exact .inr ⟨.empty, rfl⟩
     | cons f fs => exact .inl ⟨f :: fs, rfl, by simp⟩
+
+/-- **No panic, no endless loop** (the clause "never … a crash"; also C06 for the filter bytes of a TCP
+payload).  `newFromStringChecked` is `query.NewFromString` with every Go index / slice expression
+written as a checked operation on the string the source applies it to, with the index computed as the
+source computes it — `s[:i]`, `s[i+5:]` with `i := strings.Index(s, " and ")` in `scanFilter`;
+`filterBytes[i:j]` (twice) and `filterBytes[i:]` in `filter.Parse`; `rawVal[0]`, `rawVal[len-1]`,
+`rawVal[1:len-1]` behind the short-circuit `len(rawVal) > 2 &&` in `parseRawFilterValue` — outcome
+`panic` when out of range, and the loop of `NewFromString` on fuel (`hang` when exhausted).  On every
+byte string it returns exactly what the total model returns: a value or an error, never `panic`/`hang`. -/
+theorem filter_parse_never_panics (s : Bytes) : newFromStringChecked s = Chk.ofExcept (newFromString s) :=
+  newFromStringChecked_eq s
+
+/-- `filter_parse_never_panics` in the form "the outcome is neither a panic nor a hang" -/
+theorem filter_parse_outcome (s : Bytes) : newFromStringChecked s ≠ .panic ∧ newFromStringChecked s ≠ .hang := by
+  rw [filter_parse_never_panics]
+  cases newFromString s <;> exact ⟨by simp [Chk.ofExcept], by simp [Chk.ofExcept]⟩
+
+/-- `scanFilter` alone: the index `strings.Index(s, " and ")` returns is in range for `s[:i]` and `s[i+5:]` -/
+theorem scanFilter_never_panics (s : Bytes) : scanFilterChecked s = .ok (scanFilter s) := scanFilterChecked_eq s
+
+/-- `filter.Parse` alone: `filterBytes[i:j]` and `filterBytes[i:]` are in range at every step of the state machine -/
+theorem filterParse_never_panics (bs : Bytes) : parseChecked bs = Chk.ofExcept (parse bs) := parseChecked_eq bs
+
+/-- `parseRawFilterValue` alone: the index expressions are guarded by `len(rawVal) > 2` -/
+theorem parseRawFilterValue_never_panics (raw : Bytes) : parseValueChecked raw = Chk.ofExcept (parseValue raw) :=
+  parseValueChecked_eq raw
 
 /-- the loop equation of `NewFromString` holds for the fuelled model (termination of the Go loop) -/
 theorem loop_terminates (s : Bytes) :
@@ -181,6 +217,36 @@ theorem parse_render (q : List Clause) (hne : q ≠ []) (h : ∀ c ∈ q, WfClau
   | nil => exact absurd rfl hne
   | cons c q => rfl
 
+/-- **Soundness of the parser** (the converse of `parse_render`): a filter string `NewFromString` accepts
+is a spelling — in the lenient grammar `FilterSpec.QueryText`: clause texts without `" and "` inside,
+joined by `" and "`, optionally one more `" and "` at the end; a clause text is a query field, `=`, `!=`,
+`<` or `>`, and a decimal literal (optional sign, leading zeros), a non-empty single-quoted string (any
+bytes inside) or a query-field name — of exactly the clauses returned.  So an accepted string means
+what it looks like; every string outside that grammar degrades to the blank query (`malformed_is_blank`). -/
+theorem parse_sound (s : Bytes) (fs : List Filter) (h : newFromString s = .ok fs) :
+    QueryText s (fs.map ofFilter) := newFromString_sound s fs h
+
+/-- **Completeness of the lenient grammar** (generalises `parse_render` beyond canonical spellings): every
+spelling `s` of a non-empty clause list `q` — `QueryText s q` — is accepted and read as exactly `q` -/
+theorem parse_complete (s : Bytes) (q : List Clause) (h : QueryText s q) :
+    newFromString s = .ok (q.map toFilter) := newFromString_complete s q h
+
+/-- **The accepted language, exactly.**  `NewFromString` accepts `s` with result `fs` if and only if `s` is a
+spelling of `fs` in the lenient grammar.  Every other byte string is rejected (and gives the blank query). -/
+theorem accepted_language (s : Bytes) (fs : List Filter) :
+    newFromString s = .ok fs ↔ QueryText s (fs.map ofFilter) := by
+  constructor
+  · exact parse_sound s fs
+  · intro h
+    have := parse_complete s _ h
+    rw [this, List.map_map]
+    congr 1
+    conv => rhs; rw [← List.map_id fs]
+    apply List.map_congr_left
+    intro f _
+    obtain ⟨fld, op, v⟩ := f
+    cases v <;> rfl
+
 /-- a leading `+` is accepted by `strconv.Atoi` and denotes the same integer (not produced by `render`) -/
 theorem plus_sign_accepted (n : Nat) (h : n < 2 ^ 63) : atoi (0x2b :: natDigits n) = some (n : Int) := by
   have hd := digitsAcc_natDigits n
@@ -196,6 +262,57 @@ theorem C03_main (recs : List Record) (now liveness : Int) (q : List Clause) (hn
     listServers recs now liveness Facts.statusMaster (browserQuery (render q)) =
       recs.filter fun r => selected now liveness Facts.statusMaster q (toServer r) := by
   rw [wellformed_is_used _ _ (parse_render q hne h)]
+  exact selection_eq_filter recs now liveness _ (required_in_scope _ (by decide)) q
+
+/-- `toFilter` and `ofFilter` are mutually inverse: the model's `Filter` and the specification's `Clause`
+carry the same data -/
+theorem toFilter_ofFilter (f : Filter) : toFilter (ofFilter f) = f := by
+  obtain ⟨fld, op, v⟩ := f
+  cases v <;> rfl
+
+theorem ofFilter_toFilter (c : Clause) : ofFilter (toFilter c) = c := by
+  obtain ⟨fld, op, v⟩ := c
+  cases v <;> rfl
+
+/-- **C03, browser side, every accepted string.**  Whatever filter string the parser accepts — in the
+image of `render` or not (`+5`, leading zeros, a trailing `" and "`, quotes inside quotes, …) — the browser's
+listing is exactly the stored servers with status `master`, refreshed no earlier than `now − liveness`,
+that satisfy (in the declarative sense `sat`) every clause the parser returned; `parse_sound` says how
+those clauses relate to the text. -/
+theorem browser_listing_parsed (recs : List Record) (now liveness : Int) (s : Bytes) (fs : List Filter)
+    (h : newFromString s = .ok fs) :
+    listServers recs now liveness Facts.statusMaster (browserQuery s) =
+      recs.filter fun r => selected now liveness Facts.statusMaster (fs.map ofFilter) (toServer r) := by
+  rw [wellformed_is_used s fs h]
+  have e : fs = (fs.map ofFilter).map toFilter := by
+    rw [List.map_map]
+    conv => lhs; rw [← List.map_id fs]
+    apply List.map_congr_left
+    intro f _
+    exact (toFilter_ofFilter f).symm
+  conv => lhs; rw [e]
+  exact selection_eq_filter recs now liveness _ (required_in_scope _ (by decide)) _
+
+/-- **C03, browser side, every byte string**: accepted, rejected or empty — the listing is the
+specification's selection for the clauses `browserQuery` ends up with (none when the string is empty or rejected) -/
+theorem browser_listing_any (recs : List Record) (now liveness : Int) (s : Bytes) :
+    listServers recs now liveness Facts.statusMaster (browserQuery s) =
+      recs.filter fun r => selected now liveness Facts.statusMaster ((browserQuery s).map ofFilter) (toServer r) := by
+  have e : browserQuery s = ((browserQuery s).map ofFilter).map toFilter := by
+    rw [List.map_map]
+    conv => lhs; rw [← List.map_id (browserQuery s)]
+    apply List.map_congr_left
+    intro f _
+    exact (toFilter_ofFilter f).symm
+  conv => lhs; rw [e]
+  exact selection_eq_filter recs now liveness _ (required_in_scope _ (by decide)) _
+
+/-- **C03, browser side, stated on the text**: for every spelling `s` (lenient grammar) of a non-empty clause
+list `q`, the browser's listing is exactly the specification's selection for `q` -/
+theorem C03_lenient (recs : List Record) (now liveness : Int) (s : Bytes) (q : List Clause) (h : QueryText s q) :
+    listServers recs now liveness Facts.statusMaster (browserQuery s) =
+      recs.filter fun r => selected now liveness Facts.statusMaster q (toServer r) := by
+  rw [wellformed_is_used _ _ (parse_complete s q h)]
   exact selection_eq_filter recs now liveness _ (required_in_scope _ (by decide)) q
 
 /-- the REST listing is the specification's selection for the flags' clauses and status `info` -/
@@ -223,3 +340,11 @@ example : Swat4.FilterSpec.WfClause ⟨Swat4.FilterSpec.fGamevariant, .eq, .str 
 example : Swat4.FilterSpec.WfClause ⟨Swat4.FilterSpec.fGametype, .ne, .str [0x69, 0x74, 0x27, 0x73, 0x3d, 0x61, 0x6e, 0x64]⟩ := by decide
 /-- non-vacuity: the frontends' statuses satisfy the hypothesis of `selection_eq_filter` -/
 example : ∀ b ∈ Swat4.Filter.bitsOf Swat4.Facts.statusMaster, b ∈ Swat4.Facts.statusMembers := by decide
+/-- non-vacuity of `browser_listing_parsed` / `parse_sound`: a string outside `render`'s image that parses
+(`+`, leading zeros, quotes inside quotes, trailing separator) -/
+example : Swat4.Filter.newFromString (Swat4.Bytes.ofAscii "numplayers>+007 and hostname='a'b' and ") =
+    .ok [⟨Swat4.Bytes.ofAscii "numplayers", .gt, .int 7⟩, ⟨Swat4.Bytes.ofAscii "hostname", .eq, .str (Swat4.Bytes.ofAscii "a'b")⟩] := rfl
+/-- non-vacuity of `parse_complete` / `C03_lenient`: that non-canonical string is a `QueryText` of its two clauses -/
+example : Swat4.FilterSpec.QueryText (Swat4.Bytes.ofAscii "numplayers>+007 and hostname='a'b' and ")
+    [⟨Swat4.Bytes.ofAscii "numplayers", .gt, .int 7⟩, ⟨Swat4.Bytes.ofAscii "hostname", .eq, .str (Swat4.Bytes.ofAscii "a'b")⟩] :=
+  Swat4.C03.parse_sound _ [⟨Swat4.Bytes.ofAscii "numplayers", .gt, .int 7⟩, ⟨Swat4.Bytes.ofAscii "hostname", .eq, .str (Swat4.Bytes.ofAscii "a'b")⟩] rfl
